@@ -75,13 +75,15 @@ structure Cfg where
   mouseKeepsRoot : Bool
   /-- `tickit_window_new_root2` initialises `mouse_last_button/line/col` (fixes/C08_init_last_press.patch) -/
   lastPressInit : Bool
-  /-- `_handle_mouse` reports no window from a closed or dying frame and the purge of a closing subtree forgets
-      the drag source in it (fixes/C08_drag_source_forgotten.patch) -/
-  dragSourceForgotten : Bool
+  /-- the purge of a closing subtree forgets the drag source in it (fixes/C08_drag_source_forgotten.patch, second part) -/
+  dragForgottenOnClose : Bool
+  /-- `_handle_key`/`_handle_mouse` walk a counted snapshot of the children, test `_is_shown`, and `_handle_mouse`
+      returns a counted reference that `on_term_mouse` drops (the input engine's repairs 699581d, ce3ad0b, e6702a2) -/
+  snapshotRouting : Bool
 deriving Repr, DecidableEq, Inhabited
 
-def Cfg.orig : Cfg := ⟨false, false, false, false, false, false⟩
-def Cfg.fixed : Cfg := ⟨true, true, true, true, true, true⟩
+def Cfg.orig : Cfg := ⟨false, false, false, false, false, false, false⟩
+def Cfg.fixed : Cfg := ⟨true, true, true, true, true, true, true⟩
 
 /-- What an `int` of freshly `malloc`ed memory reads as in the sanitizer build the harness runs
     (AddressSanitizer fills new allocations with `0xbe`): `(int)0xbebebebe`.  Only used to mirror the tree
@@ -317,7 +319,7 @@ def purge (cfg : Cfg) (t : Tree) (win : Id) : Out Tree :=
     | some _ => do
       let cs ← purgeFilter t win t.root.changes
       let t := { t with root := { t.root with changes := cs } }
-      if cfg.dragSourceForgotten then
+      if cfg.dragForgottenOnClose then
         match t.root.dragSource with
         | some src => do
           let inside ← within t (chainFuel t) src win
@@ -713,8 +715,8 @@ def runBinds (cfg : Cfg) (st : St) (win : Id) (ev : Ev) (tag : String) : Out (St
 
 /-! ## input routing (`_handle_key`, `_handle_mouse`, `on_term_mouse`) -/
 
-/-- `_handle_key`. -/
-def handleKey (cfg : Cfg) : Nat → St → Id → Out (St × Bool)
+/-- `_handle_key` before the routing repairs (sibling loop holding `next` across handlers). -/
+def handleKeyOld (cfg : Cfg) : Nat → St → Id → Out (St × Bool)
   | 0, _, _ => .fuel
   | fuel + 1, st, win => do
     let w ← getW st win
@@ -726,13 +728,13 @@ def handleKey (cfg : Cfg) : Nat → St → Id → Out (St × Bool)
       let (st, done) ← match w.children.head? with
         | some fc => do
           let fcw ← getW st fc
-          if fcw.stealInput then handleKey cfg fuel st fc else pure (st, false)
+          if fcw.stealInput then handleKeyOld cfg fuel st fc else pure (st, false)
         | none => pure (st, false)
       -- if(win->focused_child) if(_handle_key(win->focused_child, info)) goto done;
       let (st, done) ← if done then pure (st, true) else do
         let w ← getW st win
         match w.focusedChild with
-        | some fc => handleKey cfg fuel st fc
+        | some fc => handleKeyOld cfg fuel st fc
         | none => pure (st, false)
       -- if(run_events_whilefalse(win, TICKIT_WINDOW_ON_KEY, info)) goto done;
       let (st, done) ← if done then pure (st, true) else runBinds cfg st win .key (logKey win)
@@ -746,7 +748,7 @@ def handleKey (cfg : Cfg) : Nat → St → Id → Out (St × Bool)
           let w ← getW st win
           if w.focusedChild = some child then loop n st next
           else do
-            let (st, r) ← handleKey cfg fuel st child
+            let (st, r) ← handleKeyOld cfg fuel st child
             if r then pure (st, true) else loop n st next
       let (st, done) ← if done then pure (st, true) else do
         let w ← getW st win
@@ -754,8 +756,9 @@ def handleKey (cfg : Cfg) : Nat → St → Id → Out (St × Bool)
       let st ← unrefW cfg st win
       pure (st, done)
 
-/-- `_handle_mouse`: returns the window that handled the event (a raw pointer in C: it may already be freed). -/
-def handleMouse (cfg : Cfg) : Nat → St → Id → Mouse → Out (St × Option Id)
+/-- `_handle_mouse` before the routing repairs: returns the window that handled the event (a raw pointer in C:
+    it may already be freed). -/
+def handleMouseOld (cfg : Cfg) : Nat → St → Id → Mouse → Out (St × Option Id)
   | 0, _, _, _ => .fuel
   | fuel + 1, st, win, info => do
     let w ← getW st win
@@ -772,22 +775,20 @@ def handleMouse (cfg : Cfg) : Nat → St → Id → Mouse → Out (St × Option 
           let cc := info.col - cw.rect.left
           if !cw.stealInput && (cl < 0 || cl ≥ cw.rect.lines || cc < 0 || cc ≥ cw.rect.cols) then loop n st next
           else do
-            let (st, r) ← handleMouse cfg fuel st child { info with line := cl, col := cc }
+            let (st, r) ← handleMouseOld cfg fuel st child { info with line := cl, col := cc }
             if r.isSome then pure (st, r) else loop n st next
       let w ← getW st win
       let (st, r) ← loop (4 * st.tree.wins.size + 8) st w.children.head?
       let (st, r) ← if r.isSome then pure (st, r) else do
         let (st, h) ← runBinds cfg st win .mouse (logMouse win info)
         pure (st, if h then some win else none)
-      let w ← getW st win
-      let r := if cfg.dragSourceForgotten && (w.isClosed || w.refcount = 1) then none else r
       let st ← unrefW cfg st win
       pure (st, r)
 
 def routeFuel (st : St) : Nat := st.tree.wins.size + 2
 
-/-- `on_term_key` through `tickit_term_emit_key`. -/
-def emitKey (cfg : Cfg) (st : St) : Out St := do
+/-- `on_term_key` through `tickit_term_emit_key` (before the routing repairs). -/
+def emitKeyOld (cfg : Cfg) (st : St) : Out St := do
   if st.term.freed then .ub .mem "emit on freed terminal" else
   match st.tree.wins[0]? with
   | none => pure st
@@ -795,7 +796,7 @@ def emitKey (cfg : Cfg) (st : St) : Out St := do
     if r.freed then pure st     -- the root's bindings on the terminal are gone
     else do
       let st := { st with termIter := true }
-      let (st, _) ← handleKey cfg (routeFuel st) st 0
+      let (st, _) ← handleKeyOld cfg (routeFuel st) st 0
       -- bindings->is_iterating = was_iterating: a write into the terminal
       if st.term.freed then .ub .mem "terminal freed while its bindings are being run"
       else pure { st with termIter := false }
@@ -808,8 +809,8 @@ def mDRAG_OUTSIDE : Int := 0x102
 def mDRAG_DROP : Int := 0x103
 def mDRAG_STOP : Int := 0x104
 
-/-- `on_term_mouse` through `tickit_term_emit_mouse`. -/
-def emitMouse (cfg : Cfg) (st : St) (info : Mouse) : Out St := do
+/-- `on_term_mouse` through `tickit_term_emit_mouse` (before the routing repairs). -/
+def emitMouseOld (cfg : Cfg) (st : St) (info : Mouse) : Out St := do
   if st.term.freed then .ub .mem "emit on freed terminal" else
   match st.tree.wins[0]? with
   | none => pure st
@@ -828,17 +829,199 @@ def emitMouse (cfg : Cfg) (st : St) (info : Mouse) : Out St := do
           let d : Mouse := if st.pressSeen || cfg.lastPressInit
             then ⟨mDRAG_START, (root st).mouseLastButton, (root st).mouseLastLine, (root st).mouseLastCol⟩
             else ⟨mDRAG_START, uninitInt, uninitInt, uninitInt⟩
-          let (st, src) ← handleMouse cfg fuel st 0 d
+          let (st, src) ← handleMouseOld cfg fuel st 0 d
           let _ ← getW st 0
           pure (setRoot st (fun r => { r with dragSource := src, mouseDragging := true }))
         else if info.type = mRELEASE && (root st).mouseDragging then do
-          let (st, _) ← handleMouse cfg fuel st 0 { info with type := mDRAG_DROP }
+          let (st, _) ← handleMouseOld cfg fuel st 0 { info with type := mDRAG_DROP }
           let _ ← getW st 0
           let st ← match (root st).dragSource with
             | some src => do
               let g ← absGeom st.tree src
-              let (st, _) ← handleMouse cfg fuel st src ⟨mDRAG_STOP, info.button, info.line - g.top, info.col - g.left⟩
+              let (st, _) ← handleMouseOld cfg fuel st src ⟨mDRAG_STOP, info.button, info.line - g.top, info.col - g.left⟩
               pure st
+            | none => pure st
+          let _ ← getW st 0
+          pure (setRoot st (fun r => { r with mouseDragging := false }))
+        else pure st
+      let (st, handled) ← handleMouseOld cfg fuel st 0 info
+      let st ← if info.type = mDRAG then do
+          let _ ← getW st 0
+          match (root st).dragSource with
+          | some src =>
+            if handled ≠ some src then do
+              let g ← absGeom st.tree src
+              let (st, _) ← handleMouseOld cfg fuel st src ⟨mDRAG_OUTSIDE, info.button, info.line - g.top, info.col - g.left⟩
+              pure st
+            else pure st
+          | none => pure st
+        else pure st
+      let st ← if cfg.mouseKeepsRoot then unrefW cfg st 0 else pure st
+      if st.term.freed then .ub .mem "terminal freed while its bindings are being run"
+      else pure { st with termIter := false }
+
+/-! ## input routing after the routing repairs (counted snapshot of the children, `_is_shown`, counted return) -/
+
+/-- `_is_shown`: the window and all its ancestors are visible. -/
+def isShown (t : Tree) : Nat → Id → Out Bool
+  | 0, _ => .fuel
+  | fuel + 1, id => do
+    let w ← ofRes (WinTree.get t id)
+    if !w.isVisible then pure false
+    else match w.parent with
+      | none => pure true
+      | some p => isShown t fuel p
+
+def isShownW (st : St) (w : Id) : Out Bool := isShown st.tree (chainFuel st.tree) w
+
+/-- `_ref_children`: the snapshot, every member referenced. -/
+def refChildren (st : St) (win : Id) : Out (St × List Id) := do
+  let w ← getW st win
+  let st ← w.children.foldlM refW st
+  pure (st, w.children)
+
+/-- `_unref_children`. -/
+def unrefChildren (cfg : Cfg) (st : St) (cs : List Id) : Out St := cs.foldlM (unrefW cfg) st
+
+/-- `_handle_key`. -/
+def handleKey (cfg : Cfg) : Nat → St → Id → Out (St × Bool)
+  | 0, _, _ => .fuel
+  | fuel + 1, st, win => do
+    if !(← isShownW st win) then pure (st, false)
+    else do
+      let st ← refW st win
+      let w ← getW st win
+      let (st, done) ← match w.children.head? with
+        | some fc => do
+          let fcw ← getW st fc
+          if fcw.stealInput then handleKey cfg fuel st fc else pure (st, false)
+        | none => pure (st, false)
+      let (st, done) ← if done then pure (st, true) else do
+        let w ← getW st win
+        match w.focusedChild with
+        | some fc => handleKey cfg fuel st fc
+        | none => pure (st, false)
+      let (st, done) ← if done then pure (st, true) else do
+        if (← isShownW st win) then runBinds cfg st win .key (logKey win) else pure (st, false)
+      let (st, done) ← if done then pure (st, true) else do
+        let (st, snap) ← refChildren st win
+        let rec loop : St → List Id → Out (St × Bool)
+          | st, [] => pure (st, false)
+          | st, child :: rest => do
+            let cw ← getW st child
+            if cw.parent ≠ some win then loop st rest        -- closed by a handler in the meantime
+            else do
+              let w ← getW st win
+              if w.focusedChild = some child then loop st rest
+              else do
+                let (st, r) ← handleKey cfg fuel st child
+                if r then pure (st, true) else loop st rest
+        let (st, handled) ← loop st snap
+        let st ← unrefChildren cfg st snap
+        pure (st, handled)
+      let st ← unrefW cfg st win
+      pure (st, done)
+
+/-- `_handle_mouse`: returns a counted reference to the window that took the event. -/
+def handleMouse (cfg : Cfg) : Nat → St → Id → Mouse → Out (St × Option Id)
+  | 0, _, _, _ => .fuel
+  | fuel + 1, st, win, info => do
+    if !(← isShownW st win) then pure (st, none)
+    else do
+      let st ← refW st win
+      let (st, snap) ← refChildren st win
+      let rec loop : St → List Id → Out (St × Option Id)
+        | st, [] => pure (st, none)
+        | st, child :: rest => do
+          let cw ← getW st child
+          if cw.parent ≠ some win then loop st rest
+          else
+            let cl := info.line - cw.rect.top
+            let cc := info.col - cw.rect.left
+            if !cw.stealInput && (cl < 0 || cl ≥ cw.rect.lines || cc < 0 || cc ≥ cw.rect.cols) then loop st rest
+            else do
+              let (st, r) ← handleMouse cfg fuel st child { info with line := cl, col := cc }
+              if r.isSome then pure (st, r) else loop st rest
+      let (st, r) ← loop st snap
+      let st ← unrefChildren cfg st snap
+      let (st, r) ← if r.isSome then pure (st, r) else do
+        if (← isShownW st win) then do
+          let (st, h) ← runBinds cfg st win .mouse (logMouse win info)
+          if h then do
+            let st ← refW st win                 -- ret = tickit_window_ref(win)
+            pure (st, some win)
+          else pure (st, none)
+        else pure (st, none)
+      let st ← unrefW cfg st win
+      pure (st, r)
+
+/-- `if(x) tickit_window_unref(x)`. -/
+def unrefOpt (cfg : Cfg) (st : St) : Option Id → Out St
+  | none => pure st
+  | some w => unrefW cfg st w
+
+/-- `for(w = source; w; w = w->parent) if(w == win) …` of `on_term_mouse`: walks to the top of the chain. -/
+def reachesTop (t : Tree) : Nat → Id → Id → Bool → Out Bool
+  | 0, _, _, _ => .fuel
+  | fuel + 1, w, top, acc => do
+    let ww ← ofRes (WinTree.get t w)
+    let acc := acc || w = top
+    match ww.parent with
+    | none => pure acc
+    | some p => reachesTop t fuel p top acc
+
+/-- `on_term_key` through `tickit_term_emit_key`. -/
+def emitKeyNew (cfg : Cfg) (st : St) : Out St := do
+  if st.term.freed then .ub .mem "emit on freed terminal" else
+  match st.tree.wins[0]? with
+  | none => pure st
+  | some r =>
+    if r.freed then pure st
+    else do
+      let st := { st with termIter := true }
+      let (st, _) ← handleKey cfg (routeFuel st) st 0
+      if st.term.freed then .ub .mem "terminal freed while its bindings are being run"
+      else pure { st with termIter := false }
+
+/-- `on_term_mouse` through `tickit_term_emit_mouse`. -/
+def emitMouseNew (cfg : Cfg) (st : St) (info : Mouse) : Out St := do
+  if st.term.freed then .ub .mem "emit on freed terminal" else
+  match st.tree.wins[0]? with
+  | none => pure st
+  | some r =>
+    if r.freed then pure st
+    else do
+      let st := { st with termIter := true }
+      let fuel := routeFuel st
+      let st ← if cfg.mouseKeepsRoot then refW st 0 else pure st
+      let root (st : St) := st.tree.root
+      let setRoot (st : St) (f : WinTree.Root → WinTree.Root) : St := { st with tree := { st.tree with root := f st.tree.root } }
+      let st ← if info.type = mPRESS then
+          pure { (setRoot st (fun r => { r with mouseLastButton := info.button, mouseLastLine := info.line, mouseLastCol := info.col })) with pressSeen := true }
+        else if info.type = mDRAG && !(root st).mouseDragging then do
+          let d : Mouse := if st.pressSeen || cfg.lastPressInit
+            then ⟨mDRAG_START, (root st).mouseLastButton, (root st).mouseLastLine, (root st).mouseLastCol⟩
+            else ⟨mDRAG_START, uninitInt, uninitInt, uninitInt⟩
+          let (st, source) ← handleMouse cfg fuel st 0 d
+          let _ ← getW st 0
+          let st := setRoot st (fun r => { r with dragSource := none })
+          let st ← match source with
+            | some src => do
+              let inTree ← reachesTop st.tree (chainFuel st.tree) src 0 false
+              let st := if inTree then setRoot st (fun r => { r with dragSource := some src }) else st
+              unrefW cfg st src
+            | none => pure st
+          let _ ← getW st 0
+          pure (setRoot st (fun r => { r with mouseDragging := true }))
+        else if info.type = mRELEASE && (root st).mouseDragging then do
+          let (st, dropped) ← handleMouse cfg fuel st 0 { info with type := mDRAG_DROP }
+          let st ← unrefOpt cfg st dropped
+          let _ ← getW st 0
+          let st ← match (root st).dragSource with
+            | some src => do
+              let g ← absGeom st.tree src
+              let (st, stopped) ← handleMouse cfg fuel st src ⟨mDRAG_STOP, info.button, info.line - g.top, info.col - g.left⟩
+              unrefOpt cfg st stopped
             | none => pure st
           let _ ← getW st 0
           pure (setRoot st (fun r => { r with mouseDragging := false }))
@@ -850,14 +1033,20 @@ def emitMouse (cfg : Cfg) (st : St) (info : Mouse) : Out St := do
           | some src =>
             if handled ≠ some src then do
               let g ← absGeom st.tree src
-              let (st, _) ← handleMouse cfg fuel st src ⟨mDRAG_OUTSIDE, info.button, info.line - g.top, info.col - g.left⟩
-              pure st
+              let (st, outside) ← handleMouse cfg fuel st src ⟨mDRAG_OUTSIDE, info.button, info.line - g.top, info.col - g.left⟩
+              unrefOpt cfg st outside
             else pure st
           | none => pure st
         else pure st
+      let st ← unrefOpt cfg st handled
       let st ← if cfg.mouseKeepsRoot then unrefW cfg st 0 else pure st
       if st.term.freed then .ub .mem "terminal freed while its bindings are being run"
       else pure { st with termIter := false }
+
+def emitKey (cfg : Cfg) (st : St) : Out St := if cfg.snapshotRouting then emitKeyNew cfg st else emitKeyOld cfg st
+
+def emitMouse (cfg : Cfg) (st : St) (info : Mouse) : Out St :=
+  if cfg.snapshotRouting then emitMouseNew cfg st info else emitMouseOld cfg st info
 
 end Life
 end Tickit
